@@ -390,24 +390,34 @@ def run(plan, k):
                     verdict = "pass" if d["gate"](sr.input_signal) is True else "reject"
                 except Exception:
                     verdict = "raise"
+            status = _status(sr)
             if verdict != "pass":
-                fate[d_i], why[d_i] = "blocked", f"gate={verdict}"
                 k.probe("mapk_gate_raised" if verdict == "raise" else "mapk_gate_blocked")
-                if _status(sr) == "COMPLETED":
+            # what happened to a preset stage is what the report says happened; the restated gate/function only
+            # decide whether a COMPLETED stage was allowed to complete and produced the right value
+            if status == "COMPLETED":
+                if verdict != "pass":
+                    fate[d_i], why[d_i] = "blocked", f"gate={verdict}"
                     k.violation("fail_closed", "completed_after_" + ("raise" if verdict == "raise" else "false"),
                                 f"{hs}:gate={verdict}:preset",
                                 f"{d['name']} is reported COMPLETED on {sr.input_signal!r}, which its checkpoint does not pass")
                     closed_violation = True
-                continue
-            try:
-                want = d["fn"](sr.input_signal)
-            except Exception:
-                fate[d_i], why[d_i] = "failed", "proc=raise"
-                continue
-            fate[d_i] = "completed"
-            if _status(sr) == "COMPLETED" and sr.output_signal != want:
-                k.violation("composition", "stage_output_not_stage_function", f"{hs}:preset",
-                            f"{d['name']}({sr.input_signal!r}) reported {sr.output_signal!r}, expected {want!r}")
+                    continue
+                try:
+                    want = d["fn"](sr.input_signal)
+                except Exception as e:
+                    fate[d_i], why[d_i] = "failed", "proc=raise"
+                    k.violation("composition", "stage_output_not_stage_function", f"{hs}:preset",
+                                f"{d['name']}({sr.input_signal!r}) reported COMPLETED, the tier function raises {type(e).__name__}")
+                    continue
+                fate[d_i] = "completed"
+                if sr.output_signal != want:
+                    k.violation("composition", "stage_output_not_stage_function", f"{hs}:preset",
+                                f"{d['name']}({sr.input_signal!r}) reported {sr.output_signal!r}, expected {want!r}")
+            elif status == "BLOCKED":
+                fate[d_i], why[d_i] = "blocked", f"gate={verdict if verdict != 'pass' else 'reported_blocked'}"
+            else:
+                fate[d_i], why[d_i] = "failed", ("gate=raise" if verdict == "raise" else "proc=raise")
 
     faults_seen = any(f in ("blocked", "failed", "recovered") for f in fate)
     if faults_seen:
